@@ -60,6 +60,8 @@ class Interp:
         on_stmt: Optional[Callable[[ast.AST, Env], None]] = None,
         class_universe: Optional[Universe] = None,
         owner_class: Optional[str] = None,
+        pseudo_bases: Optional[Dict[str, str]] = None,
+        predicates: Optional[Dict[str, ast.FunctionDef]] = None,
     ) -> None:
         self.prog = prog
         self.func = func
@@ -70,6 +72,10 @@ class Interp:
         self.on_stmt = on_stmt
         self.class_universe = class_universe
         self.owner_class = owner_class
+        # pseudo atoms (e.g. "Never" = the NO_RETURN_VALUE singleton) -> class they are an instance of
+        self.pseudo_bases = pseudo_bases or {}
+        # boolean helper functions of one parameter whose single return expression is a condition
+        self.predicates = predicates or {}
         self.returns: List[Tuple[ast.Return, Env]] = []
         self.yields: List[Tuple[ast.AST, Env]] = []
         self.fallthrough: Optional[Env] = None
@@ -77,7 +83,15 @@ class Interp:
 
     # ------------------------------------------------------------ utilities
     def key_of(self, node: ast.AST) -> Optional[str]:
+        if isinstance(node, ast.Call) and not node.args and not node.keywords:
+            d = dotted(node.func)
+            return d + "()" if d else None
         return dotted(node)
+
+    def _is_sub(self, atom: str, cls: str) -> bool:
+        if atom in self.pseudo_bases:
+            return atom == cls or self.prog.is_subclass(self.pseudo_bases[atom], cls)
+        return self.prog.is_subclass(atom, cls)
 
     def universe_for(self, key: str) -> Optional[Universe]:
         return self.universes.get(key)
@@ -112,7 +126,7 @@ class Interp:
         unknown = False
         for n in names:
             if n in self.prog.classes and any(a in self.prog.classes for a in universe.atoms):
-                out.update(a for a in universe.atoms if a in self.prog.classes and self.prog.is_subclass(a, n))
+                out.update(a for a in universe.atoms if (a in self.prog.classes or a in self.pseudo_bases) and self._is_sub(a, n))
                 if n in universe.atoms:
                     out.add(n)
             elif n in universe.atoms:
@@ -230,6 +244,30 @@ class Interp:
             if test.value:
                 return env, None
             return None, env
+        if (
+            isinstance(test, ast.Call)
+            and isinstance(test.func, ast.Name)
+            and test.func.id in self.predicates
+            and len(test.args) == 1
+        ):
+            k = self.key_of(test.args[0])
+            pf = self.predicates[test.func.id]
+            rets = [n for n in ast.walk(pf) if isinstance(n, ast.Return)]
+            if k is not None and k in env and len(rets) == 1 and rets[0].value is not None and pf.args.args:
+                pname = pf.args.args[0].arg
+                sub = Interp(
+                    self.prog,
+                    pf,
+                    universes={pname: self.universes[k]} if k in self.universes else {},
+                    class_universe=self.class_universe,
+                    singletons=self.singletons,
+                    pseudo_bases=self.pseudo_bases,
+                )
+                t, f = sub.cond(rets[0].value, {pname: env[k]})
+                te = self._narrow(env, k, t[pname]) if t is not None and pname in t else (env if t is not None else None)
+                fe = self._narrow(env, k, f[pname]) if f is not None and pname in f else (env if f is not None else None)
+                return te, fe
+            return env, env
         if isinstance(test, ast.Call) and last_attr(test) == "isinstance" and len(test.args) == 2:
             k = self.key_of(test.args[0])
             if k is not None and k in env and k in self.universes and self.universes[k].kind == "class":
@@ -313,6 +351,10 @@ class Interp:
             # false branch keeps everything (other instances of the class exist).
             if isinstance(b, ast.Name) and b.id in self.singletons:
                 cls = self.singletons[b.id]
+                if cls in self.pseudo_bases:
+                    # the singleton is its own atom: identity is exact
+                    sel = frozenset({cls})
+                    return self._narrow(env, k, env[k] & sel), self._narrow(env, k, env[k] - sel)
                 sel = frozenset(x for x in env[k] if x == cls)
                 return self._narrow(env, k, sel), env
             return None
@@ -555,11 +597,19 @@ class UnarySummary:
     whose first parameter ranges over a class universe (e.g. the normaliser
     replace_known_sequence_value).  Recursive calls use the summary itself."""
 
-    def __init__(self, prog: Program, func: ast.FunctionDef, cu: Universe, singletons: Dict[str, str]) -> None:
+    def __init__(
+        self,
+        prog: Program,
+        func: ast.FunctionDef,
+        cu: Universe,
+        singletons: Dict[str, str],
+        pseudo_bases: Optional[Dict[str, str]] = None,
+    ) -> None:
         self.prog = prog
         self.func = func
         self.cu = cu
         self.singletons = singletons
+        self.pseudo_bases = pseudo_bases or {}
         self.param = func.args.args[0].arg
         self.table: Dict[str, Set[str]] = {a: set() for a in cu.atoms}
         self._solve()
@@ -592,6 +642,7 @@ class UnarySummary:
                     class_universe=self.cu,
                     singletons=self.singletons,
                     summaries={self.func.name: self._summary},
+                    pseudo_bases=self.pseudo_bases,
                 )
                 it.run({self.param: frozenset({a})})
                 res: Set[str] = set()
